@@ -75,7 +75,7 @@ OP_WEIGHTS = {
     "stat": 3, "stat0": 1, "mov": 3, "fill": 4, "extrap": 2, "nvar": 2, "change": 3, "binop": 9,
     "scalarop": 4, "unary": 3, "hstack": 4, "ishift": 2, "copy": 3, "replace_where": 2, "mixfreq": 2,
     "describe": 1, "apply": 2, "new_shared": 2, "achange": 2, "convert": 2, "cum": 2, "restart": 2, "shape": 3,
-    "iter_open": 1, "iter_next": 2,
+    "iter_open": 1, "iter_next": 2, "scribble": 2,
 }
 
 MUTATING = {"set", "shift", "clip", "lay", "elem", "stat", "mov", "fill", "extrap", "nvar", "change",
@@ -201,6 +201,7 @@ class SeriesWorld(World):
         self.live = {}      # name -> Obj
         self.snaps = {}     # name -> snapshot
         self.iters = {}     # name -> iteration in flight over a live series (iter_dates_values)
+        self.caller = []    # arrays the caller still holds: handed to a constructor or a write, or returned by a read
         self.counter = 0
         self.freq = cfg["freq"]
         self._filters = None
@@ -693,6 +694,17 @@ class SeriesWorld(World):
             shift = rng.choice(["yoy", "soy", "eopy"])
         return self._with_form(rng, {"op": "change", "args": {"h": h, "fn": rng.choice(sorted(sm.CHANGES)), "shift": shift}})
 
+    def _keep(self, arr, how):
+        """The caller goes on holding an array it handed to the library or got back from it."""
+        if isinstance(arr, np.ndarray) and arr.size and arr.flags.writeable:
+            self.caller.append((arr, how))
+            del self.caller[:-6]
+
+    def _gen_scribble(self, actor, val, rng):
+        if not self.caller:
+            return None
+        return {"op": "scribble", "args": {"i": rng.randrange(len(self.caller)), "v": rng.choice([12345.5, -777.0, None])}}
+
     def _gen_iter_open(self, actor, val, rng):
         if len(self.iters) >= 2:
             return None
@@ -974,11 +986,15 @@ class SeriesWorld(World):
             m = SM(None, nv, None, None, 0, a["desc"])
         else:
             if ctor == "start_values":
-                s = ir.Series(num_variants=nv, start=P(f, start), values=vals.copy(), description=a["desc"])
+                mine = vals.copy()
+                self._keep(mine, "constructor")
+                s = ir.Series(num_variants=nv, start=P(f, start), values=mine, description=a["desc"])
             elif ctor == "start_tuple":
                 s = ir.Series(start=P(f, start), values=tuple(float(x) for x in vals[:, 0]), description=a["desc"])
             else:
-                s = ir.Series(num_variants=nv, periods=[P(f, start + i) for i in range(vals.shape[0])], values=vals.copy(), description=a["desc"])
+                mine = vals.copy()
+                self._keep(mine, "constructor")
+                s = ir.Series(num_variants=nv, periods=[P(f, start + i) for i in range(vals.shape[0])], values=mine, description=a["desc"])
             m = sm.from_array(f, nv, start, vals, a["desc"])
         exp = Exp(m.freq, nv, m.cells, tight=True, desc=a["desc"])
         bad = conforms(s, exp, "constructor")
@@ -1057,6 +1073,7 @@ class SeriesWorld(World):
             A = from_nan_list(d["v"])
             value_at = lambda i, j: A[i][min(j, A.shape[1] - 1)]
             real_data = A.copy()
+            self._keep(real_data, "write")
         elif k == "tuple":
             tv = [np.nan if x is None else x for x in d["v"]]
             value_at = lambda i, j: tv[i]
@@ -1183,6 +1200,7 @@ class SeriesWorld(World):
             if how == "getitem":
                 got = s[dr] if var_real is None else s[dr, var_real]
                 self._cmp_read(opname, got, want)
+                self._keep(got, "read")
             elif how == "data_and_periods":
                 got, per = s.get_data_and_periods(dr) if var_real is None else s.get_data_and_periods(dr, var_real)
                 self._cmp_read(opname, got, want)
@@ -1193,6 +1211,7 @@ class SeriesWorld(World):
                 self._cmp_read(opname, got, want)
                 if isinstance(got, np.ndarray) and got.size and np.shares_memory(got, s.data):
                     self.probes["read_returns_view"] += 1
+                self._keep(got, "read")
             else:
                 got = s.get_values(dr, unpack_singleton=False) if var_real is None else s.get_values(dr, var_real, unpack_singleton=False)
                 arr = np.array([list(col) for col in got], dtype=float).T.reshape(len(ts), len(vids)) if len(got) else np.zeros((len(ts), 0))
@@ -1389,6 +1408,17 @@ class SeriesWorld(World):
         if form == "func":
             return self._exec(step, name + ".func", [("recv", h)], lambda: getattr(ir, fn)(o.real, shift), out=step["out"][0], expect=exp)
         return self._exec(step, name + ".method", [("recv", h)], lambda: getattr(o.real, fn)(shift), recv=h, expect=exp)
+
+    def _do_scribble(self, step, a):
+        """The caller writes into an array of its own: one it passed to a constructor or to a write earlier, or one a read
+        returned.  None of that is an operation on a series, so no series may change (constructors, writes and reads copy)."""
+        if a["i"] >= len(self.caller):
+            return "skipped"
+        arr, how = self.caller[a["i"]]
+        arr[...] = np.nan if a["v"] is None else a["v"]
+        self.probes["caller_wrote_into_own_array_" + how] += 1
+        self._isolation("scribble." + how, "")
+        return "ok"
 
     def _do_iter_open(self, step, a):
         h = a["h"]
